@@ -135,7 +135,7 @@ class HunksFam(Family):
     name = 'hunks'
     rule = ('hunk sequences rendered from generated ASTs with known geometry (start lines incl. 0 and huge, counts incl. '
             '0 and omitted 1, payloads that look like file/hunk headers, markers inside hunks, separators between '
-            'hunks), all single-point damages (truncate, inject a foreign line, inject a header), both garbage modes; '
+            'hunks, incl. header look-alikes under every other delimiter pair), all single-point damages (truncate, inject a foreign line, inject a header), both garbage modes; '
             'plus every line list up to a bounded length over a 9-line alphabet; non-trivial = at least one hunk '
             'header; distinct by (lines, mode)')
 
